@@ -249,6 +249,10 @@ def run_markov(tier, acc):
             variants.append(('tied', tied))
             zero = [(L, 0.5 ** (i + 2) if i < 2 else 0.0) for i, L in enumerate(levels)]
             variants.append(('zero-tied', zero))
+        if len(levels) >= 3:
+            # a higher level that is more probable than a lower one (small or skewed training lists): the file lists level 3 before level 2
+            order = [levels[0], levels[2], levels[1]] + levels[3:]
+            variants.append(('level-order', [(L, 0.5 ** (i + 2)) for i, L in enumerate(order)]))
         for vname, op in variants:
             spec = dict(D.TERMINALS[0])
             m = dict(model)
